@@ -102,6 +102,10 @@ def execute(prog, choose, line_level=False):
                             obs = ("ret", None)
                         except Exception as e:  # noqa: BLE001
                             obs = ("err", e)
+                    elif o.get("given"):
+                        # the argument is the collection the OTHER thread works on (read inside this write)
+                        o2 = {k_: v_ for k_, v_ in o.items() if k_ != "given"}
+                        obs = realize.perform(hdl[h], o2, 0, args={("given", "x"): hdl[o["given"]]})
                     else:
                         obs = realize.perform(hdl[h], o, 0)
                     history.append({"e": "ret", "t": tname, "ret": _enc(obs), "file": 1 if (res2 and oi == 1) else 0})
@@ -196,15 +200,49 @@ def explore_program(args):
     ex = sched.Explorer(run_once, bound=bound, max_runs=max_runs, by_preemptions=bool(prog.get("coarse")), seed=common.seed(),
                         extra_random=0 if prog.get("coarse") else max(20, max_runs // 2))
     n = 0
-    for res, choices in ex.explore():
-        n += 1
+
+    def keep(res, choices):
         key = json.dumps([res["history"], res.get("final"), res["deadlock"], res["leaks"], res.get("exit_error"),
                           res.get("size_after")], sort_keys=True, default=repr)
         if key in seen:
-            continue
+            return
         seen.add(key)
         res["choices"] = choices
         outs.append(res)
+    # lock-directed schedules (independent of the budgeted search): for every thread and every k, run that thread until
+    # it is about to request its k-th lock that it does not hold yet, then let the other threads run as far as they
+    # can, then resume it.  Every lock-order inversion between two threads (t1: A then B, t2: B then A) deadlocks in
+    # one of these schedules.
+    if not line_level:
+        for first in prog["threads"]:
+            for k in range(0, 12):
+                st = {"n": 0, "switched": False, "log": []}
+
+                def choose(runnable, current, trace, first=first, k=k, st=st):
+                    f = next((t for t in runnable if t.name == first), None)
+                    others = [t for t in runnable if t.name != first]
+                    pick = None
+                    if not st["switched"] and f is not None:
+                        kind, det = f.point
+                        if kind == "acquire" and isinstance(det, sched.SchedRLock) and det.owner is not f:
+                            if st["n"] == k and others:
+                                st["switched"] = True
+                                pick = others[0]
+                            else:
+                                st["n"] += 1
+                        pick = pick or f
+                    else:
+                        pick = others[0] if others else f
+                    st["log"].append(pick.name)
+                    return pick
+                res = run_once(choose)
+                n += 1
+                keep(res, list(st["log"]))
+                if not st["switched"]:
+                    break       # the thread has fewer than k+1 such requests
+    for res, choices in ex.explore():
+        n += 1
+        keep(res, choices)
     return {"prog": prog, "runs": n, "distinct": outs}
 
 
@@ -528,7 +566,7 @@ def check_C10(tier):
                        "strategies; (c) all C09-style pairs; " + KNOWN_NOTE.format(b=2) + "; a schedule in which no "
                        "thread is runnable while some are unfinished is a deadlock; after all threads finished every "
                        "lock (collection, class, buffer) must be free; (d) filename re-pointing with a second object "
-                       "bound to the old file")
+                       "bound to the old file; (e) cross-collection programs a.update(b) || b.update(a) on two files")
     run.assumptions += ["JSON backend", "I/O faults are injected as an unparsable file (load) - save-time faults are "
                         "covered by the sequential check below"]
     progs = []
@@ -555,6 +593,19 @@ def check_C10(tier):
                     for (h1, h2) in (("root", "root"), ("root", "other")):
                         progs.append({"name": f"{cls}[buf={buffered}]:{h1}.{a['op']}||{h2}.{b['op']}", "cls": cls,
                                       "buffered": buffered, "threads": {"t1": [(h1, a)], "t2": [(h2, b)]}})
+    # (e) cross-collection programs: each thread writes ITS collection (own file) with the other thread's collection
+    # as the argument - a read of b inside a write of a and vice versa
+    for cls, kind in (("JSONDict", "d"), ("BufferedJSONDict", "d"), ("MemoryBufferedJSONDict", "d"), ("JSONList", "l")):
+        ops = ([{"op": "update", "x": {"t": "d", "m": []}}, {"op": "setitem", "k": "c", "x": {"t": "d", "m": []}},
+                {"op": "reset", "x": {"t": "d", "m": []}}] if kind == "d"
+               else [{"op": "extend", "x": {"t": "l", "s": []}}, {"op": "append", "x": {"t": "l", "s": []}},
+                     {"op": "reset", "x": {"t": "l", "s": []}}])
+        for a in ops:
+            for b in ops[:2]:
+                for buffered in ((None, {"cap": None}) if "Buffered" in cls else (None,)):
+                    progs.append({"name": f"{cls}[buf={buffered}]:root.{a['op']}(other)||other.{b['op']}(root)", "cls": cls,
+                                  "two_files": True, "buffered": buffered,
+                                  "threads": {"t1": [("root", dict(a, given="other"))], "t2": [("other", dict(b, given="root"))]}})
     # (d) re-pointing a collection at another file while other threads write (class lock x collection lock)
     for cls, kind in (("JSONDict", "d"), ("BufferedJSONDict", "d"), ("JSONList", "l")):
         mut = MUT_D if kind == "d" else MUT_L
